@@ -16,8 +16,10 @@ CONSTANTS
   FixD5 = TRUE
   FixD6 = TRUE
   FixD21 = TRUE
+  DstMax = 0
+  FixD35 = TRUE
   Export = FALSE
 VIEW view
 INVARIANTS Refines ScanComplete Accounting BoundedAfterCompaction NoDeadTables SingleVersion CfRegistry ExportInv
-PROPERTIES CompactionSafe CompactionProgress
+PROPERTIES CompactionSafe CompactionProgress TransferSafe
 CHECK_DEADLOCK FALSE
